@@ -64,7 +64,8 @@ func valuePool() map[string][]*variants.Variant {
 	for _, t := range []time.Time{time.Unix(0, 0), time.Unix(1000000000, 0), time.Unix(-1, 0), time.Unix(1600000000, 500), {}, time.Date(2020, 2, 29, 12, 0, 0, 0, time.UTC), time.Unix(253402300799, 0)} {
 		p["time"] = append(p["time"], vTime(t))
 	}
-	p["arr"] = []*variants.Variant{vArr(), vArr(vInt(1), vInt(2)), vArr(vStr("a"), vInt(1), vNull()), vArr(vDouble(1.5)), vArr(vArr(vInt(1))), vArr(vStr("12"), vLong(2))}
+	p["arr"] = []*variants.Variant{vArr(), vArr(vInt(1), vInt(2)), vArr(vStr("a"), vInt(1), vNull()), vArr(vDouble(1.5)), vArr(vArr(vInt(1))), vArr(vStr("12"), vLong(2)),
+		vArr(vDouble(2.5), vInt(2)), vArr(vBool(true), vStr("true")), vArr(vInt(0), vDouble(2), vFloat(1.5)), vArr(vLong(7), vStr("7"), vStr("x"))}
 	return p
 }
 
@@ -289,6 +290,25 @@ func propC06(c *Ctx) {
 					}
 					if res["getElement"] != want {
 						c.fail(Failure{Kind: "oracle", Op: fmt.Sprintf("op %s getElement %s %s", m, encVariant(a), encVariant(b)), Impl: res["getElement"], Note: "indexing must follow list semantics: expected " + want})
+					}
+				}
+				// membership follows list semantics: x IN [e...] iff some x = e (the element converted to x's type),
+				// the first failing comparison being the error
+				if a.Type() == variants.Array && b.Type() != variants.Null {
+					want := safeCall(func() string {
+						for _, e := range a.AsArray() {
+							eq, err := mgrOf(m).Equal(b, e)
+							if err != nil {
+								return "err " + errCode(err)
+							}
+							if eq.Type() == variants.Boolean && eq.AsBoolean() {
+								return "ok b1"
+							}
+						}
+						return "ok b0"
+					})
+					if res["in"] != want {
+						c.fail(Failure{Kind: "oracle", Op: fmt.Sprintf("op %s in %s %s", m, encVariant(a), encVariant(b)), Impl: res["in"], Note: "membership must follow list semantics (x IN [e...] iff some x = e): expected " + want})
 					}
 				}
 				if ok3 && ok4 && ne == eq {
